@@ -382,9 +382,20 @@ def run_asm(sc, label, variant="asm"):
                   server_sock=dict(recv_script=lambda s, w, a: 1))
     p = Pair(**kw)
     fl = sc.flavor(st)
+    extra = []
+    if variant != "asm":
+        # the client keeps its socket while it waits for the answer to its
+        # close_notify: the server's read has to *write* that answer (and,
+        # in TLS 1.3, the answer to a KeyUpdate request before it) through
+        # the constrained socket
+        p.c.closeSocket = False
+        if sc.ver == (3, 4):
+            from tlslite.constants import KeyUpdateMessageType
+            extra = [("hs", p.c.send_keyupdate_request(
+                KeyUpdateMessageType.update_requested))]
     a_c = Asm(p.c, [("hs", fl.client_gen(p.c)),
-                    ("write", b"ping-from-client" * 3), ("read", 48),
-                    ("write", b"bye"), ("close",)])
+                    ("write", b"ping-from-client" * 3), ("read", 48)] +
+              extra + [("write", b"bye"), ("close",)])
     a_s = Asm(p.s, [("hs", fl.server_gen(p.s)), ("read", 48),
                     ("write", b"pong-from-server" * 3), ("read", 3),
                     ("read_until_closed",)])
